@@ -256,6 +256,7 @@ func (r *Report) writeEvidence(ps *propSummary, viol int) {
 	assumptions := map[string]bool{}
 	abstracted := map[string]int{}
 	var notes []string
+	var preconds []string
 	seenFn := map[string]bool{}
 	for _, ob := range ps.obls {
 		if ob.Res.status == "not-attempted" {
@@ -284,6 +285,11 @@ func (r *Report) writeEvidence(ps *propSummary, viol int) {
 			for _, n := range ob.fn.notes {
 				notes = append(notes, ob.Func+": "+n)
 			}
+			for _, cl := range ob.fn.fc.Clauses {
+				if cl.Kind == "requires" {
+					preconds = append(preconds, ob.Func+": requires "+cl.Text)
+				}
+			}
 		}
 		if len(samples) < 6 || ob.Res.status != "unsat" {
 			samples = append(samples, sample{ob.ID, ob.Text, fmt.Sprintf("%s:%d", filepath.Base(ob.Pos.Filename), ob.Pos.Line), ob.Res.status, ob.Res.solver, ob.Res.timeS,
@@ -305,6 +311,7 @@ func (r *Report) writeEvidence(ps *propSummary, viol int) {
 	}
 	sort.Strings(abstractedList)
 	sort.Strings(notes)
+	sort.Strings(preconds)
 	nObl := len(ps.obls) - ps.notAtt - len(ps.known)
 	cov := map[string]any{
 		"obligations":              nObl,
@@ -321,6 +328,8 @@ func (r *Report) writeEvidence(ps *propSummary, viol int) {
 		"known_findings_hit":       knownHit,
 		"notes":                    notes,
 		"generator_errors":         ps.genErrs,
+		"preconditions":            preconds,
+		"preconditions_note":       "each precondition is an obligation at every call site inside a function under a full contract (kind pre); at entry points, and at call sites in functions that are not under contract or whose partial contract does not claim kind pre, it is assumed",
 		"vacuity":                  r.vacuity,
 		"timing_s":                 map[string]float64{"load_ssa": round2(r.loadS), "generate": round2(r.genS), "solve": round2(r.solveS)},
 	}
